@@ -147,6 +147,11 @@ func (h *c07h) extraJobs(root *rng, tier string, jobs *[]*c07job) {
 		p := p
 		add(func(j *c07job) { h.runP(j, p) })
 	}
+	// stream D: where the script stores the result of a host call: context x destination kind x statement form x result type
+	for _, d := range h.allD(root.fork()) {
+		d := d
+		add(func(j *c07job) { h.runD(j, d) })
+	}
 	// stream F: host-declared function types, every position x every kind of function expression
 	for _, pos := range c07fPos {
 		for _, kind := range c07fKind {
